@@ -378,10 +378,19 @@ func keptInvalid(r *Rng) (*tyNode, map[string]interface{}, func(reflect.Value)) 
 		elem = &tyNode{Kind: "ptr", Elem: elem}
 	}
 	tag := "l," + []string{"append", "append", "prepend"}[r.Intn(3)]
-	t := &tyNode{Kind: "struct", Fields: []tyField{
-		{GoName: "L", CTag: tag, T: &tyNode{Kind: "slice", Elem: elem}},
-		{GoName: "Z", CTag: "z", T: intT}}}
 	n := 1 + r.Intn(3)
+	lt := &tyNode{Kind: "slice", Elem: elem}
+	variant := r.Intn(4)
+	if variant >= 2 {
+		// an array / a slice the configuration does not mention at all: validated as it stands
+		tag = "l"
+		if variant == 2 {
+			lt = &tyNode{Kind: "array", N: n, Elem: elem}
+		}
+	}
+	t := &tyNode{Kind: "struct", Fields: []tyField{
+		{GoName: "L", CTag: tag, T: lt},
+		{GoName: "Z", CTag: "z", T: intT}}}
 	bad := r.Intn(n)
 	k := 1 + r.Intn(2)
 	l := make([]interface{}, k)
@@ -389,8 +398,20 @@ func keptInvalid(r *Rng) (*tyNode, map[string]interface{}, func(reflect.Value)) 
 		l[i] = map[string]interface{}{"p": int64(5), "q": "v"}
 	}
 	cfg := map[string]interface{}{"l": l, "z": int64(5)}
+	if variant >= 2 {
+		delete(cfg, "l")
+	}
 	fix := func(v reflect.Value) {
-		s := reflect.MakeSlice(t.Fields[0].T.goType(), n, n)
+		s := reflect.MakeSlice(reflect.SliceOf(elem.goType()), n, n)
+		defer func() {
+			if lt.Kind == "array" {
+				a := reflect.New(lt.goType()).Elem()
+				reflect.Copy(a, s)
+				v.Field(0).Set(a)
+			} else {
+				v.Field(0).Set(s)
+			}
+		}()
 		for i := 0; i < n; i++ {
 			e := randGoValue(r, elem, 0)
 			st := e
@@ -404,7 +425,6 @@ func keptInvalid(r *Rng) (*tyNode, map[string]interface{}, func(reflect.Value)) 
 			}
 			s.Index(i).Set(e)
 		}
-		v.Field(0).Set(s)
 	}
 	return t, cfg, fix
 }
